@@ -54,6 +54,8 @@ class ExprMixin:
             return smt.mk_ref(c.cid)
         if name in BUILTIN_FUNCS:
             return self.static_val(Builtin(name), key=f'builtin:{name}')
+        if name in ('__package__', '__name__'):
+            return smt.mk_str('pjrpc')
         if name == 'NotImplemented':
             return self.static_val(ExtObject('NotImplemented'), key='NotImplemented')
         return None
@@ -477,6 +479,8 @@ class ExprMixin:
                 self.raise_new('IndexError', smt.mk_str('index out of range'))
             j = smt.simp(z3.If(i < 0, i + n, i))
             v = smt.simp(s[j])
+            if not z3.is_int_value(j) or not z3.is_int_value(smt.simp(n)):
+                self.note_index(s, j)
             self.bound_ref(v)
             self.json_closed(obj, v)
             return v
